@@ -2,14 +2,15 @@ from propcommon import *  # noqa
 
 CFG = dict(
     level="proof",
-    lean_modules=["ElysModel.Props.C08"],
-    props_files=["ElysModel/Props/C08.lean"],
+    lean_modules=["ElysModel.Props.C08", "ElysModel.Props.C08Src"],
+    pre_cmds=[GO2LEAN],
+    props_files=["ElysModel/Props/C08.lean", "ElysModel/Props/C08Src.lean"],
     runs=[scn_run("c08"), hist_run(focus="lp."), gentrip_run(focus="lp."),
           # governance re-submits (another leverage cap) or removes a leverage-enabled pool now and then (harness/govshock.go govLpShock)
           dict(hist_run(nq=150, nt=300, sq=4, st=8, focus="lp."), env_quick={"VERIF_HISTS": "1", "VERIF_FOCUS": "lp.", "VERIF_GOVLP": "1"}, env_thorough={"VERIF_HISTS": "3", "VERIF_FOCUS": "lp.", "VERIF_GOVLP": "1"})],
     rule=HIST_RULE + "; plus directed scenarios (mode scn, prefix c08)",
-    trusted_base=COMMON_TB + ["leveragelp macro-ops are recognised from the LP-share mint/commit and uncommit/burn bank events at position addresses; share amounts are W"],
-    assumptions=["a position opened and fully closed inside one block is not tracked by the replay (its address is in neither observation)"],
+    trusted_base=COMMON_TB + [SRC_TB, "leveragelp macro-ops are recognised from the LP-share mint/commit and uncommit/burn bank events at position addresses; share amounts are W"],
+    assumptions=[SRC_ASSUME, "a position opened and fully closed inside one block is not tracked by the replay (its address is in neither observation)"],
     explanation="Theorems: pool leveraged amount = sum of its positions, position amount = shares committed at the position address, counter = stored positions, "
                 "preserved by open / consolidate / partial and full close for all share amounts over all histories; a full close leaves nothing behind. "
                 "Model tied to the code block by block; predicates evaluated on every observed block (incl. begin-blocker sweeps and ClosePositions)."
